@@ -1,0 +1,31 @@
+//go:build verif
+
+package connectconformance
+
+// Contracts for the deductive verifier in /verif (comment-only file; no code).
+//
+// trieT(tt, n): some pattern stored in the trie rooted at tt globs the component
+// list n, with the glob semantics of the documentation: a literal component
+// equals itself, "*" stands for exactly one component, "**" for zero or more.
+// trieD(d, n): a pattern continues below the "**" edge leading to d and globs
+// some suffix of n (the "**" swallowed the rest).
+
+//@ spec trieT(tt *testTrie, n []string) bool =
+//@    tt != nil && ( (len(n) == 0 && tt.present)
+//@      || (len(n) > 0 && trieT(tt.children[n[0]], n[1:]))
+//@      || (len(n) > 0 && trieT(tt.children["*"], n[1:]))
+//@      || trieD(tt.children["**"], n) )
+//@ spec trieD(d *testTrie, n []string) bool =
+//@    d != nil && (trieT(d, n) || (len(n) > 0 && trieD(d, n[1:])))
+
+//@ func (*testTrie).match
+//@   requires tt != nil
+//@   modifies atomicI32
+//@   ensures @glob result == trieT(tt, components)
+//@   ensures @counters !result ==> atomicI32 == old(atomicI32)
+//@   loop 0: invariant child != nil && trieD(child, old(components)) == trieD(child, components)
+//@           invariant atomicI32 == old(atomicI32)
+
+//@ func (*testTrie).matchPattern
+//@   requires tt != nil
+//@   modifies atomicI32
